@@ -224,9 +224,20 @@ def r08_5(ctx):
     cs = idx.func("Compiler.compile_sub_routine")
     rh = idx.func("RZILTransformer.resolve_hybrid")
     init = idx.func("RZILTransformer.__init__")
-    gen = [n.value for n in ast.walk(rh.node) if isinstance(n, ast.Assign) and isinstance(n.value, ast.JoinedStr) and any("hybrid_op_count" in U(v) for v in n.value.values)]
+    def name_parts(e):
+        """components of a name expression, left to right: f-string parts, or the operands of a `+` concatenation (str(x) unwrapped)"""
+        if isinstance(e, ast.JoinedStr):
+            return list(e.values)
+        if isinstance(e, ast.BinOp) and isinstance(e.op, ast.Add):
+            out = []
+            for side in (e.left, e.right):
+                out += name_parts(side) if isinstance(side, (ast.BinOp, ast.JoinedStr)) else [side]
+            return [ast.FormattedValue(value=x.args[0], conversion=-1) if isinstance(x, ast.Call) and isinstance(x.func, ast.Name) and x.func.id == "str" and x.args else
+                    (ast.FormattedValue(value=x, conversion=-1) if not isinstance(x, (ast.Constant, ast.FormattedValue)) else x) for x in out]
+        return []
+    gen = [n.value for n in ast.walk(rh.node) if isinstance(n, ast.Assign) and isinstance(n.targets[0], ast.Name) and "hybrid_op_count" in U(n.value) and name_parts(n.value)]
     ctx.need(len(gen) == 1, f"temporary name generator not found in resolve_hybrid ({len(gen)} candidates)")
-    parts = gen[0].values
+    parts = name_parts(gen[0])
     scope_attrs = [v.value.attr for v in parts if isinstance(v, ast.FormattedValue) and isinstance(v.value, ast.Attribute) and U(v.value.value) == "self" and "hybrid_op_count" not in U(v)]
     counter_last = isinstance(parts[-1], ast.FormattedValue) and "hybrid_op_count" in U(parts[-1])
     tvars = [U(n.targets[0]) for n in ast.walk(cs.node) if isinstance(n, ast.Assign) and isinstance(n.value, ast.Call) and call_name(n.value) == "RZILTransformer"]
